@@ -17,7 +17,7 @@ from ..common import rng_for, b2j
 
 LEVEL = "exploration"
 SHARDS = {"quick": 1, "thorough": 16}
-REQUIRED = ("truncations_run", "rejections_observed", "accepted_checked_against_model", "leaf_spans_checked",
+REQUIRED = ("families_whose_selector_builds_fresh_fields", "truncations_run", "rejections_observed", "accepted_checked_against_model", "leaf_spans_checked",
             "silent_none_checked", "odd_width_int_truncations", "odd_bits_run_truncations")
 MIN_NONTRIVIAL = 200
 RULE = {
@@ -143,7 +143,21 @@ def run(run):
     if run.tier == "thorough":
         profile["max_depth"] = 4
     sampled = 0
-    for bench in driver.families(run, rng, profile, VARIANTS, nfam, tag="c04"):
+    def builds_fresh_fields(fam):
+        # a run-time selected reference whose callable constructs a new field per call, with alternatives of different sizes
+        for d in fam["decls"].values():
+            for f in d["fields"]:
+                if f["t"] == "sel" and f.get("form") == "fresh" and "share" not in f:
+                    sizes = set((o["t"], o.get("n"), o.get("size"), o.get("mode")) for o in f["options"].values() if o["t"] != "ref")
+                    if len(sizes) >= 2:
+                        return True
+        return False
+    fresh_profile = dict(profile, kinds={"int": 30, "data": 16, "bits": 4, "ref": 6, "sel": 40, "em": 1}, p_rep=0.3, accept=builds_fresh_fields)
+    import itertools
+    for bench in itertools.chain(driver.families(run, rng, profile, VARIANTS, nfam, tag="c04"),
+                                 driver.families(run, rng, fresh_profile, VARIANTS, max(12, nfam // 8), tag="c04f")):
+        if builds_fresh_fields(bench.fam):
+            run.count("families_whose_selector_builds_fresh_fields")
         fam = bench.fam
         flags = family_flags(fam)
         seen = set()
